@@ -77,6 +77,7 @@ fn prog(cfg: &Cfg) {
     let (a, b, c) = (cfg.get("a"), cfg.get("b"), cfg.opt("c", -1));
     let raw = cfg.opt("raw", 0) == 1;
     let w = World::new();
+    w.prelude(cfg);
     let (o, x) = if raw { (w.raw(), w.raw()) } else { (w.desync_obj(), w.desync_obj()) };
     let gates = [Gate::new(), Gate::new(), Gate::new()];
     // `busy` pool threads are pinned by blocking jobs on other objects until the environment releases them
